@@ -65,7 +65,31 @@ GEN = {"rpms": gen_rpms_op, "modules": gen_modules_op, "extra": gen_extra_op}
 
 
 def generate(rng, kind, n, maxops=8):
-    return [{"kind": kind, "ops": [GEN[kind](rng) for _ in range(rng.randint(1, maxops))]} for _ in range(n)]
+    cases = []
+    for _ in range(n):
+        ops = [GEN[kind](rng) for _ in range(rng.randint(1, maxops))]
+        c = {"kind": kind, "ops": ops}
+        if kind == "modules" and rng.random() < 0.5:
+            # callers often pass ONE list object to several add calls: share it by reference in the implementation run
+            c["shared"] = [["a-0:1-1.x86_64", "b-0:1-1.noarch"], ["c-0:2-1.x86_64"]]
+            for op in ops:
+                if isinstance(op[6], list) and rng.random() < 0.7:
+                    op[6] = {"ref": rng.randrange(2)}
+        cases.append(c)
+    return cases
+
+
+def resolve_ops(case, share):
+    """ops with {"ref": i} replaced by the i-th shared list: the same object when share is True (implementation),
+    a copy of its value otherwise (model)"""
+    shared = [list(l) for l in case.get("shared", [])]
+    out = []
+    for op in case["ops"]:
+        op = list(op)
+        if len(op) > 6 and isinstance(op[6], dict) and "ref" in op[6]:
+            op[6] = shared[op[6]["ref"]] if share else list(case["shared"][op[6]["ref"]])
+        out.append(op)
+    return out
 
 
 def _mk(kind):
@@ -83,7 +107,7 @@ def _mk(kind):
 def impl(case):
     o, state = _mk(case["kind"])
     out = []
-    for op in case["ops"]:
+    for op in resolve_ops(case, True):
         try:
             o.add(*op)
             out.append(["ok", copy.deepcopy(state())])
